@@ -296,4 +296,4 @@ def run(ctx):
     # the backward pass rebuilds the forward trajectory from the saved extras: the forward step must not have
     # overwritten, in place, the tensors it carried or was handed
     from . import c05
-    ctx.guard(c05.r05_5)
+    ctx.guard(c05.r05_5_solvers)
